@@ -49,6 +49,9 @@ var queries = []query{
 	{"select from p=nosuch limit 10", nil, "nosrc"},
 	{"select from p=err limit 10", nil, "err"},
 	{"selec from", nil, "parse"},
+	// end-to-end stream only (the fake factory's iterators carry no records): a filtered and a time-ranged cursor
+	{"select from p=b where msg contains \"m\" limit 10", []int{1}, "parts"},
+	{"select from p=c OR p=d range [\"0\":\"999999\"] limit 10", []int{2, 3}, "parts"},
 }
 
 type reqInfo struct {
@@ -1500,10 +1503,12 @@ func runStress(seed uint64, workers, rounds int, shared bool) *Case {
 
 // ---------------------------------------------------------------- main
 
-const rule = "step histories over 1-3 concurrent requests, 1-6 ids, cache sizes 1-3 (and 10), idle/busy time-outs (3,7) (7,3) (1,5) hours, clock advances in even hours; a case is non-trivial iff a request hit a cached id, was refused (at the lookup or at the insert), fell back after a failed ApplyState, a sweep removed a cursor, or Shutdown found a non-empty cache; distinct by the hash of the step list"
+const rule = "step histories over 1-3 concurrent requests, 1-6 ids, cache sizes 1-3 (and 10), idle/busy time-outs (3,7) (7,3) (1,5) hours, clock advances in even hours; a case is non-trivial iff a request hit a cached id, was refused (at the lookup or at the insert), fell back after a failed ApplyState, a sweep removed a cursor, or Shutdown found a non-empty cache; distinct by the hash of the step list; end-to-end scripts (stream e2e): 16-32 steps through the real ServerQuerier (rpc) and backend.Querier with the provider observed, non-trivial iff a request was refused, continued a cached cursor or waited"
 
 func runReplay(rp Replay) (*Case, error) {
 	switch rp.Kind {
+	case "e2e":
+		return nil, fmt.Errorf("an e2e case is replayed by runE2E")
 	case "stress":
 		return runStress(rp.Seed, 6, 300, rp.Shared), nil
 	case "script", "shutdown":
@@ -1532,6 +1537,18 @@ func main() {
 			var rp Replay
 			if err := FromJSON(c.Replay, &rp); err != nil {
 				return err
+			}
+			if rp.Kind == "e2e" {
+				var erp E2EReplay
+				if err := FromJSON(c.Replay, &erp); err != nil {
+					return err
+				}
+				cs, err := runE2E(erp, true)
+				if err != nil {
+					return err
+				}
+				c.Add(*cs)
+				return c.Finish(rule)
 			}
 			cs, err := runReplay(rp)
 			if err != nil {
@@ -1595,6 +1612,23 @@ func main() {
 		// 5. stress runs with real goroutines (oracle only)
 		for i := 0; i < c.N(6); i++ {
 			c.Add(*runStress(c.Rng.U64(), 6, 300, i%2 == 1))
+		}
+		// 6. end to end: request sequences through the real ServerQuerier (rpc) and backend.Querier, provider observed
+		ne := c.N(24)
+		erps := make([]E2EReplay, ne)
+		for i := range erps {
+			erps[i] = E2EReplay{Kind: "e2e", Seed: c.Rng.U64(), Max: c.Rng.PickInt(2, 3, 1000, 1000), End: c.Rng.PickStr("sweep", "sweep", "stop", "cancel-stop")}
+		}
+		eres := make([]*Case, ne)
+		eerr := make([]error, ne)
+		Parallel(ne, 6, func(i int) {
+			eres[i], eerr[i] = runE2E(erps[i], false)
+		})
+		for i := range erps {
+			if eerr[i] != nil {
+				return eerr[i]
+			}
+			c.Add(*eres[i])
 		}
 		return c.Finish(rule)
 	})
